@@ -1,4 +1,5 @@
 // C08 certificate probe.  usage: C08_fdyn <seed> <ncases>
+// Enable/disable is exercised as a HISTORY on one state (defaults, repeated requests, toggling back, realizations in between).
 // Each case: a random 5-body tree of rich mobilizers (harness/C07_sys.h) with 1-6 constraints of the C07 kinds
 // (base constraints on distinct body pairs / distinct coordinates with at most 7 rows in total, plus exact duplicates and
 // Ball-at-the-Weld-points as redundant-but-consistent members), a random enable mask, gravity + random mobility and body
@@ -9,7 +10,8 @@
 // reports, and the results of the same system rebuilt WITHOUT the disabled constraints.
 #include "C07_sys.h"
 
-struct CSpec { int kind; int pair; unsigned long long sub; bool enabled; int special; };   // special: 1 = Ball at the points of the Weld with the same sub-seed
+struct CSpec { int kind; int pair; unsigned long long sub; bool enabled; int special;
+               bool defDisabled; std::vector<int> hist; };   // hist: enable/disable requests applied to ONE state in order (1 = disable); enabled = final flag   // special: 1 = Ball at the points of the Weld with the same sub-seed
 
 static void buildSystem(ConSystem& cs, unsigned long long treeSeed, const std::vector<CSpec>& specs, bool onlyEnabled, unsigned long long forceSeed) {
     Rng rt(treeSeed); cs.buildTree(rt, true);
@@ -21,6 +23,7 @@ static void buildSystem(ConSystem& cs, unsigned long long treeSeed, const std::v
             ConDesc d; d.kind = K_BALL; Constraint::Ball ball(cs.mob(a), f1.p(), cs.mob(b), f2.p()); d.cx = ball.getConstraintIndex(); cs.cons.push_back(d);
         } else if (c.kind <= K_NOSLIP) cs.addBodyConstraint(rc, c.kind, c.pair);
         else cs.addMobilityConstraint(rc, c.kind);
+        if (!onlyEnabled && c.defDisabled) cs.matter.updConstraint(cs.cons.back().cx).setDisabledByDefault(true);
     }
     Rng rf(forceSeed);
     Force::UniformGravity(cs.forces, cs.matter, Vec3(rf.U(-3, 3), -9.8, rf.U(-3, 3)));
@@ -43,7 +46,7 @@ int main(int argc, char** argv) {
         std::vector<CSpec> specs; int rows = 0; std::vector<int> usedPairs;
         int nbase = r.I(1, 3);
         for (int i = 0; i < nbase; ++i) {
-            CSpec c; c.kind = r.I(0, K_NKINDS - 1); c.pair = r.I(0, 7); c.sub = r.g(); c.enabled = true; c.special = 0;
+            CSpec c; c.kind = r.I(0, K_NKINDS - 1); c.pair = r.I(0, 7); c.sub = r.g(); c.enabled = true; c.special = 0; c.defDisabled = false;
             if (onman && (c.kind == K_CACC)) c.kind = K_CSPEED;
             if (c.kind <= K_NOSLIP) {           // one body constraint per unordered body pair, and none sharing a body with NoSlip's three
                 int a, b; ConSystem::pairOf(c.pair, a, b); int key = std::min(a, b) * 8 + std::max(a, b);
@@ -53,7 +56,7 @@ int main(int argc, char** argv) {
             }
             rows += rowsOf(c.kind); specs.push_back(c);
         }
-        if (specs.empty()) { CSpec c; c.kind = K_ROD; c.pair = 0; c.sub = r.g(); c.enabled = true; c.special = 0; specs.push_back(c); }
+        if (specs.empty()) { CSpec c; c.kind = K_ROD; c.pair = 0; c.sub = r.g(); c.enabled = true; c.special = 0; c.defDisabled = false; specs.push_back(c); }
         int nred = r.I(0, 2);               // redundant but consistent members
         for (int i = 0; i < nred && specs.size() < 6; ++i) {
             CSpec c = specs[r.I(0, (int)specs.size() - 1)];
@@ -61,13 +64,40 @@ int main(int argc, char** argv) {
             if (c.kind == K_WELD && r.I(0, 1)) { c.special = 1; }
             specs.push_back(c);
         }
-        if (specs.size() >= 2) for (size_t i = 0; i < specs.size(); ++i) specs[i].enabled = r.I(0, 3) != 0;
+        // enable/disable HISTORIES on one state: every constraint gets a default flag (a quarter are disabled by default) and a sequence of
+        // 0..4 requests whose last one is the final flag; sequences are biased to end by toggling BACK to the default (disable;enable resp.
+        // enable;disable).  A lone constraint stays enabled in the end.
+        for (size_t i = 0; i < specs.size(); ++i) {
+            CSpec& c = specs[i]; c.defDisabled = r.I(0, 3) == 0; c.hist.clear();
+            int L = r.I(0, 4); for (int j = 0; j < L; ++j) c.hist.push_back(r.I(0, 1));
+            if (r.I(0, 2) == 0) { c.hist.push_back(c.defDisabled ? 0 : 1); c.hist.push_back(c.defDisabled ? 1 : 0); }   // away from the default and back
+            bool fin = c.hist.empty() ? c.defDisabled : c.hist.back() == 1;
+            if (specs.size() < 2 && fin) { c.hist.push_back(0); fin = false; }
+            c.enabled = !fin;
+        }
+        { bool any = false; for (size_t i = 0; i < specs.size(); ++i) any = any || specs[i].enabled;
+          if (!any) { specs[0].hist.push_back(0); specs[0].enabled = true; } }
         try {
             ConSystem A; buildSystem(A, treeSeed, specs, false, forceSeed);
             Rng rs(stateSeed); A.finish(rs);
             State s = A.state; const SimbodyMatterSubsystem& m = A.matter;
-            State sAll = s;                                      // every constraint enabled
-            for (size_t i = 0; i < specs.size(); ++i) if (!specs[i].enabled) m.getConstraint(A.cons[i].cx).disable(s);
+            State sAll = s;                                      // every constraint enabled (one request each from the default state)
+            for (size_t i = 0; i < specs.size(); ++i) m.getConstraint(A.cons[i].cx).enable(sAll);
+            // apply the request histories to s, interleaved over the constraints in random order, through Constraint::enable/disable or
+            // SimbodyMatterSubsystem::setConstraintIsDisabled, realizing the state between requests half of the time
+            { Rng rh(stateSeed ^ 0x9e3779b97f4a7c15ULL); std::vector<size_t> pos(specs.size(), 0); int left = 0; for (size_t i = 0; i < specs.size(); ++i) left += (int)specs[i].hist.size();
+              while (left > 0) { size_t i = rh.I(0, (int)specs.size() - 1); if (pos[i] >= specs[i].hist.size()) continue;
+                  bool dis = specs[i].hist[pos[i]++] == 1; --left; const Constraint& c = m.getConstraint(A.cons[i].cx);
+                  if (rh.I(0, 2) == 0) m.setConstraintIsDisabled(s, A.cons[i].cx, dis); else if (dis) c.disable(s); else c.enable(s);
+                  int rz = rh.I(0, 3); if (rz == 0) A.sys.realize(s, Stage::Instance); else if (rz == 1) A.sys.realize(s, Stage::Acceleration); } }
+            // the flag the state reports must be the last request (the default if there was none)
+            std::printf("PRE %d\n", k);
+            bool flagsOk = true;
+            for (size_t i = 0; i < specs.size(); ++i) { const Constraint& c = m.getConstraint(A.cons[i].cx);
+                std::printf("FLAG %d %d %d %d |", (int)i, (int)c.isDisabledByDefault(), (int)c.isDisabled(s), (int)m.isConstraintDisabled(s, A.cons[i].cx));
+                for (size_t j = 0; j < specs[i].hist.size(); ++j) std::printf(" %d", specs[i].hist[j]); std::printf("\n");
+                if (c.isDisabled(s) != !specs[i].enabled) flagsOk = false; }
+            if (!flagsOk) { std::printf("FLAGMISMATCH %d seed %llu\nEND\n", k, seed); continue; }
             A.sys.realizeModel(s);
             if (onman) { A.sys.realize(s, Stage::Velocity); A.sys.project(s, 1e-12); sAll.updQ() = s.getQ(); sAll.updU() = s.getU(); }
             A.sys.realize(s, Stage::Acceleration); A.sys.realize(sAll, Stage::Velocity);
@@ -86,7 +116,7 @@ int main(int argc, char** argv) {
             for (size_t i = 0; i < specs.size(); ++i) {
                 const Constraint& c = m.getConstraint(A.cons[i].cx); int p, v, a; c.getNumConstraintEquationsInUse(sAll, p, v, a);
                 MultiplierIndex pf, vf, af; c.getIndexOfMultipliersInUse(sAll, pf, vf, af);
-                char buf[64]; std::snprintf(buf, sizeof buf, " %s%s%s", CKNAMES[specs[i].special ? K_BALL : specs[i].kind], specs[i].special ? "@weld" : "", specs[i].enabled ? "" : "(off)"); kinds += buf;
+                char buf[64]; std::snprintf(buf, sizeof buf, " %s%s%s", CKNAMES[specs[i].special ? K_BALL : specs[i].kind], specs[i].special ? "@weld" : "", specs[i].enabled ? "" : "(off)"); kinds += buf; if (specs[i].defDisabled) kinds += "[dd]"; if (specs[i].hist.size() > 1) kinds += "[hist]";
                 if (!specs[i].enabled) continue;
                 int kd = specs[i].kind; if (kd == K_CACC || kd == K_CSPEED || kd == K_SCPL) workless = false;    // working unless their constants vanish
                 MultiplierIndex pa, va, aa; c.getIndexOfMultipliersInUse(s, pa, va, aa);
